@@ -256,10 +256,14 @@ func runCheck(prop, tier string, seed int) (int, *Evidence) {
 	vacuous := []string{}
 	for _, r := range results {
 		funcs = append(funcs, fmt.Sprintf("%s (%s, mode %s, %d loops, tags %s)", r.Key, r.Pos, r.Mode, r.Loops, r.Tags))
+		vac := map[*Obl]bool{}
+		for _, o := range VacuousCanaries(r) {
+			vac[o] = true
+		}
 		for _, o := range r.Obls {
 			if o.Canary {
 				nCanary++
-				if o.Result == "unsat" {
+				if vac[o] {
 					// the program point is unreachable under the contracts: on the unchanged tree every canary is
 					// reachable (or the return is declared dead-return), so this is a reachability obligation that
 					// held and now fails — reported as a violation of its own, since everything after that point
